@@ -84,6 +84,9 @@ impl<T: Qcow2IoOps> Qcow2Dev<T> {
             Qcow2Info::get_max_l1_entries(h.size(), h.cluster_bits().try_into().unwrap()),
             1 << bs_shift,
         );
+        // one image of size 0 needs no L1 entry at all, but the in-ram table
+        // can't be empty
+        let l1_size = std::cmp::max(l1_size, 1 << bs_shift);
         let rt_size = h.reftable_clusters() << h.cluster_bits();
         let l1_entries = h.l1_table_entries() as u32;
 
